@@ -269,8 +269,11 @@ func (hdr *TxHeader) innerHash() [sha256.Size]byte {
 			binary.BigEndian.PutUint16(b[i:], uint16(hdr.NEntries))
 			i += sszSize
 		}
-	case 1:
+	default:
 		{
+			// version 1; a header with an unknown (newer or forged) version, e.g. one
+			// received in a proof, is hashed with the newest known layout: the version
+			// is part of the preimage, so the resulting Alh cannot match a genuine one
 			var mdbs []byte
 
 			if hdr.Metadata != nil {
@@ -285,10 +288,6 @@ func (hdr *TxHeader) innerHash() [sha256.Size]byte {
 
 			binary.BigEndian.PutUint32(b[i:], uint32(hdr.NEntries))
 			i += lszSize
-		}
-	default:
-		{
-			panic(fmt.Errorf("missing tx hash calculation method for version %d", hdr.Version))
 		}
 	}
 
